@@ -1858,9 +1858,12 @@ write_module(ostream &out, ostream *out_h, InterrogateModuleDef *def) {
       << "extern \"C\" EXPORT_CLASS PyObject *PyInit_" << def->module_name << "();\n"
       << "\n"
       << "PyObject *PyInit_" << def->module_name << "() {\n"
+      << "  Dtool_" << def->library_name << "_RegisterTypes();\n"
       << "  const LibraryDef *refs[] = {&" << def->library_name << "_moddef, nullptr};\n"
       << "  PyObject *module = Dtool_PyModuleInitHelper(refs, &python_native_module);\n"
-      << "  Dtool_" << def->library_name << "_BuildInstants(module);\n"
+      << "  if (module != nullptr) {\n"
+      << "    Dtool_" << def->library_name << "_BuildInstants(module);\n"
+      << "  }\n"
       << "  return module;\n"
       << "}\n"
       << "\n"
@@ -1869,9 +1872,12 @@ write_module(ostream &out, ostream *out_h, InterrogateModuleDef *def) {
       << "extern \"C\" EXPORT_CLASS void init" << def->module_name << "();\n"
       << "\n"
       << "void init" << def->module_name << "() {\n"
+      << "  Dtool_" << def->library_name << "_RegisterTypes();\n"
       << "  const LibraryDef *refs[] = {&" << def->library_name << "_moddef, nullptr};\n"
       << "  PyObject *module = Dtool_PyModuleInitHelper(refs, \"" << def->module_name << "\");\n"
-      << "  Dtool_" << def->library_name << "_BuildInstants(module);\n"
+      << "  if (module != nullptr) {\n"
+      << "    Dtool_" << def->library_name << "_BuildInstants(module);\n"
+      << "  }\n"
       << "}\n"
       << "\n"
       << "#endif\n"
